@@ -11,7 +11,8 @@ EXPLANATION = (
     "(d) the decoder rewrites TTL 0 to 1 for responses and handle_response arms a timer for the expiry of new and "
     "updated records; (e) verify shortens SRV/address expiry through set_expire_sooner, arms the new expiry and "
     "schedules the second query round.  Decides that removals are produced, forwarded and armed; not the time of "
-    "delivery over histories.")
+    "delivery over histories."
+    " (f) Only an expired PTR or an emptied SRV vector puts an instance into the removal set, and the eviction results reach the notifiers whole (no truncating adapter).")
 UNDECIDED = ["time of delivery of ServiceRemoved relative to the TTL", "'not before' (no spurious removal) over histories",
              "duplicates across histories"]
 
